@@ -2,6 +2,8 @@ package props
 
 import (
 	"go/token"
+	"sort"
+	"strings"
 
 	"golang.org/x/tools/go/ssa"
 
@@ -414,5 +416,40 @@ func c08R3(p *engine.Prog, r *engine.Report, af *ssa.Function) {
 			r.Check(len(callsTo(rt, id)) > 0, "C08-R3", "Blockchain.ResetTo|"+id, p.Pos(rt.Pos()), "stored index of the abandoned block removed", "abandoned block's index entry is kept")
 		}
 	}
-	r.Floor("C08-R3", 10, "read")
+	// every abandoned height loses its header and canonical entry, whatever the block looks like: the
+	// removals are controlled only by the presence of a canonical hash
+	if rt := mustFunc(p, r, "blockchain", "Blockchain.ResetTo"); rt != nil {
+		for _, c := range callsTo(rt, "database.Repo.RemoveHeader", "database.Repo.RemoveCanonicalHash") {
+			var foreign []string
+			hdr := engine.LoopHeaderOf(c.Block())
+			if hdr == nil {
+				r.Bad("C08-R3", "Blockchain.ResetTo|"+calleeShort(c)+" for every abandoned height with a canonical entry", p.InstrPos(c), "the removal is not inside the loop over the abandoned heights")
+				continue
+			}
+			lb := loopBlocks(hdr)
+			for _, iff := range engine.Ifs(rt) {
+				if !lb[iff.Block()] || iff.Block() == hdr {
+					continue
+				}
+				for s := 0; s < 2; s++ {
+					// a branch that can reach the next iteration without the removal
+					if iff.Block().Succs[s] == c.Block() || !engine.ReachAvoiding(rt, iff.Block().Succs[s], nil, map[*ssa.BasicBlock]bool{c.Block(): true})[hdr] {
+						continue
+					}
+					// allowed conditions depend only on the canonical hash
+					sl := engine.BackSlice(iff.Cond, engine.DefaultSlice)
+					for v := range sl {
+						if cc, ok := v.(*ssa.Call); ok {
+							if engine.CallNameIs(cc, "GetBlock", "GetBlockByHeight", "IsEmpty", "GetBlockHeaderByHeight", "ReadBlockHeader") {
+								foreign = append(foreign, calleeShort(cc)+" (branch at "+p.InstrPos(iff)+")")
+							}
+						}
+					}
+				}
+			}
+			sort.Strings(foreign)
+			r.Check(len(foreign) == 0, "C08-R3", "Blockchain.ResetTo|"+calleeShort(c)+" for every abandoned height with a canonical entry", p.InstrPos(c), "controlled only by the canonical hash lookup", "the removal depends on the abandoned block itself ("+strings.Join(dedup(foreign), ", ")+"): some abandoned blocks keep their header / height entry — heights above a shorter adopted fork still resolve to phantom blocks")
+		}
+	}
+	r.Floor("C08-R3", 12, "read")
 }
